@@ -121,7 +121,7 @@ _ties = weakref.WeakKeyDictionary()      # lattice -> its context (kept as long 
 def tie(lattice, ctx):
     """Driver-side: remember which context a lattice was obtained from."""
     try:
-        _ties[lattice] = ctx
+        _ties[lattice] = weakref.ref(ctx)     # weak: the value must not keep the key alive (ctx caches its lattice)
     except TypeError:        # unhashable / not weak-referenceable: fall back to the private attribute
         pass
     return lattice
@@ -130,7 +130,8 @@ def tie(lattice, ctx):
 def context_of(lattice):
     """The context a lattice was tied to (None if unknown)."""
     try:
-        ctx = _ties.get(lattice)
+        ref = _ties.get(lattice)
+        ctx = ref() if ref is not None else None
     except TypeError:
         ctx = None
     if ctx is None:     # optional private name; a refactor must not cause an alarm
